@@ -285,6 +285,44 @@ fn drive(cfgv: &Value, wc: WorldCfg, out: &mut impl Write) {
                 writeln!(out, "{}", ev).unwrap();
             }
         }
+        // fair phase (C01): writes have stopped, every link is healed, nothing is lost; `fair_rounds`
+        // rounds of complete handshakes between all ordered pairs in a random order
+        let fair_rounds = num(cfgv, "fair_rounds", 0);
+        if fair_rounds > 0 {
+            for _ in 0..fair_rounds {
+                let mut pairs: Vec<(String, String)> = Vec::new();
+                for a in &nodes { for b in &nodes { if a != b { pairs.push((a.clone(), b.clone())); } } }
+                pairs.shuffle(&mut rng);
+                for (a, b) in pairs {
+                    let mut last_m = 0usize;
+                    for k in 1..=4u64 {
+                        let st = if k == 1 { json!({"a": "CreateSyn", "n": a, "to": b}) }
+                                 else { let dst = if k % 2 == 0 { &b } else { &a }; json!({"a": "Process", "n": dst, "m": last_m}) };
+                        steps.push(st);
+                        let i = steps.len() - 1;
+                        run.step(&steps, i);
+                        last_m = i;
+                        let mut ev = strip_nulls(&run.events[i]);
+                        ev["i"] = json!(i);
+                        ev["hs"] = json!({"k": k, "a": a, "b": b});
+                        writeln!(out, "{}", ev).unwrap();
+                    }
+                }
+                if num(cfgv, "fair_gc", 1) == 1 {
+                    for n in &nodes {
+                        for what in ["Heartbeat", "Gc"] {
+                            steps.push(json!({"a": what, "n": n}));
+                            let i = steps.len() - 1;
+                            run.step(&steps, i);
+                            let mut ev = strip_nulls(&run.events[i]);
+                            ev["i"] = json!(i);
+                            writeln!(out, "{}", ev).unwrap();
+                        }
+                    }
+                }
+            }
+            writeln!(out, "{}", json!({"a": "FairEnd", "rounds": fair_rounds, "clock": run.world.now_ticks()})).unwrap();
+        }
     }
 }
 
@@ -395,7 +433,42 @@ fn fuzz(cfgv: &Value, wc: WorldCfg, out: &mut impl Write) {
             } else {
                 // hostile datagram
                 let mut b = pool.choose(&mut rng).unwrap().clone();
-                let kind = rng.random_range(0..9);
+                let mut kind = rng.random_range(0..9);
+                if rng.random_range(0..10) < 4 {
+                    // structure-aware: syntactically valid operations in semantically arbitrary order,
+                    // with versions / watermarks / start versions chosen around the victim's frontiers
+                    kind = 9;
+                    let view = run.world.project(&n);
+                    let mut members: Vec<String> = nodes.clone();
+                    members.push("z".to_string());
+                    let mut ops: Vec<vharness::codec::WOp> = Vec::new();
+                    let nops = rng.random_range(1..7);
+                    let mut cur_max = 0u64;
+                    for j in 0..nops {
+                        if j == 0 || rng.random_range(0..4) == 0 {
+                            let x = members.choose(&mut rng).unwrap().clone();
+                            let c = &view["ns"][&x];
+                            let m = c["max"].as_u64().unwrap_or(0);
+                            let g = c["gc"].as_u64().unwrap_or(0);
+                            let near = |rng: &mut StdRng, v: u64| -> u64 { match rng.random_range(0..5) { 0 => 0, 1 => v.saturating_sub(1), 2 => v, 3 => v + 1, _ => v + rng.random_range(0..4) } };
+                            cur_max = m;
+                            ops.push(vharness::codec::WOp::Node { id: vharness::world::wid(&x), gc: near(&mut rng, g.max(m)), from: near(&mut rng, m) });
+                        } else if rng.random_range(0..5) == 0 {
+                            ops.push(vharness::codec::WOp::SetMax { max: cur_max + rng.random_range(0..3) });
+                        } else {
+                            let ver = match rng.random_range(0..4) { 0 => cur_max, 1 => cur_max + 1, 2 => cur_max.saturating_sub(1).max(1), _ => cur_max + rng.random_range(1..4) };
+                            let k = if rng.random_bool(0.5) { keys.choose(&mut rng).unwrap().clone() } else { "kh".to_string() };
+                            let st = rng.random_range(0..3u8);
+                            ops.push(vharness::codec::WOp::KV { key: k, val: if st == 1 { String::new() } else { format!("h{ver}") }, ver, st });
+                            if rng.random_bool(0.7) { cur_max = cur_max.max(ver); }
+                        }
+                    }
+                    let msg = if rng.random_bool(0.6) { vharness::codec::WMsg::Ack { ops } } else {
+                        let x = members.choose(&mut rng).unwrap().clone();
+                        vharness::codec::WMsg::SynAck { digest: vec![vharness::codec::WNodeDigest { id: vharness::world::wid(&x), hb: rng.random_range(0..50), gc: rng.random_range(0..4), max: rng.random_range(0..6) }], ops }
+                    };
+                    b = vharness::codec::encode_default(&msg);
+                }
                 match kind {
                     0 => { let k = rng.random_range(1..4); for _ in 0..k { if !b.is_empty() { let p = rng.random_range(0..b.len()); b[p] ^= 1 << rng.random_range(0..8); } } }
                     1 => { let l = rng.random_range(0..=b.len()); b.truncate(l); }
